@@ -155,6 +155,17 @@ class Env(dict):
             dict.__setitem__(self, k, v)
 
 
+def _walk_own(fn):
+    """nodes of a function body without entering nested functions/lambdas/classes"""
+    todo = list(fn.body)
+    while todo:
+        n = todo.pop()
+        yield n
+        for c in ast.iter_child_nodes(n):
+            if not isinstance(c, (ast.FunctionDef, ast.AsyncFunctionDef, ast.Lambda, ast.ClassDef)):
+                todo.append(c)
+
+
 class Closure:
     def __init__(self, fn, env):
         self.fn = fn
@@ -180,7 +191,23 @@ class Interp:
             c = self.mod.classes[name]
             bases = tuple(_TYPES.get(lit_name(b), object) for b in c.bases) or (object,)
             if any(isinstance(st, ast.FunctionDef) for st in c.body):
-                raise Unsupported(f"class {name} has methods")
+                # a plain class with methods: instances are checker-side records whose methods are the class's functions of
+                # this module; the class body's attributes are evaluated once (as at import) and shared by every instance
+                # and every later evaluation in this process - exactly the sharing Python gives them
+                if bases != (object,) or c.decorator_list or c.keywords:
+                    raise Unsupported(f"class {name} has methods and bases/decorators")
+                attrs = {"__dl_class__": name, "__dl_plain__": True}
+                for st in c.body:
+                    if isinstance(st, ast.Assign) and len(st.targets) == 1 and isinstance(st.targets[0], ast.Name):
+                        attrs[st.targets[0].id] = self.expr(st.value, Env(None))
+                    elif isinstance(st, ast.AnnAssign) and isinstance(st.target, ast.Name) and st.value is not None:
+                        attrs[st.target.id] = self.expr(st.value, Env(None))
+                    elif isinstance(st, (ast.FunctionDef, ast.Pass, ast.AnnAssign)) or (isinstance(st, ast.Expr) and isinstance(st.value, ast.Constant)):
+                        continue
+                    else:
+                        raise Unsupported(f"class {name}: body statement {type(st).__name__}")
+                Interp._SYNTH[key] = type(name, (Synth,), attrs)
+                return Interp._SYNTH[key]
             Interp._SYNTH[key] = type(name, bases, {})
         return Interp._SYNTH[key]
 
@@ -206,6 +233,26 @@ class Interp:
             env = Env(parent_env)
             for k, v in bound.items():
                 dict.__setitem__(env, k, v)
+            is_gen = getattr(fn, "_dl_is_gen", None)
+            if is_gen is None:
+                is_gen = any(isinstance(x, (ast.Yield, ast.YieldFrom)) for x in _walk_own(fn))
+                try:
+                    fn._dl_is_gen = is_gen
+                except AttributeError:
+                    pass
+            if is_gen:
+                # a generator function: the body is run to completion and the values it yields are handed back as a
+                # one-shot iterator (a second pass over it sees nothing, as with the real generator)
+                self._yields = getattr(self, "_yields", [])
+                self._yields.append([])
+                try:
+                    try:
+                        self._block(fn.body, env)
+                    except _Return:
+                        pass
+                    return iter(self._yields[-1])
+                finally:
+                    self._yields.pop()
             try:
                 self._block(fn.body, env)
             except _Return as r:
@@ -618,6 +665,16 @@ class Interp:
                 # data fields of a syntax-tree value handed in by the checker (ast.Call.args, keyword.arg ...)
                 return getattr(base, n.attr)
             raise Unsupported(f"attribute {n.attr}")
+        if isinstance(n, ast.Yield):
+            if not getattr(self, "_yields", None):
+                raise Unsupported("yield outside a generator function")
+            self._yields[-1].append(self.expr(n.value, env) if n.value is not None else None)
+            return None
+        if isinstance(n, ast.YieldFrom):
+            if not getattr(self, "_yields", None):
+                raise Unsupported("yield outside a generator function")
+            self._yields[-1].extend(list(self.expr(n.value, env)))
+            return None
         if isinstance(n, ast.Call):
             return self._callexpr(n, env)
         if isinstance(n, ast.Lambda):
@@ -855,8 +912,17 @@ class Interp:
             if name in _EXC:
                 return Raised(name, "", n)
             if name in self.mod.classes and name not in env:
+                klass = self._synth_class(name)
+                if getattr(klass, "__dl_plain__", False):
+                    obj = klass()
+                    init = self.mod.funcs.get(f"{name}.__init__")
+                    if init is not None:
+                        self._call(init, [obj] + list(args), kwargs)
+                    elif args or kwargs:
+                        raise Raised("TypeError", "", n)
+                    return obj
                 try:
-                    return self._synth_class(name)(*args, **kwargs)
+                    return klass(*args, **kwargs)
                 except TypeError:
                     raise Raised("TypeError", "", n)
             if name in self.extra and isinstance(self.extra[name], type):
